@@ -66,9 +66,9 @@ CLAIMS = {
     },
     "C04": {
         "engine": "V",
-        "technique": "Verus contracts and in-body obligations on the RenderBlock and CallFunction(super) arms of interpret lifted mechanically (arm extraction; the re-entry into interpret is a trusted declaration carrying the inductive hypothesis), on render_to, and on find_parents",
-        "text": "Proof of the DISPATCH half for all VM states: RenderBlock runs lineage[0] (the most-derived definition) with the block pushed at level 0 and recorded as current, is an error when the block has no lineage, restores chunk/current block/block stack and lets a failing body surface; super() looks up the TOPMOST entry of the current block, is an error outside a block or at the last level, runs lineage[level + 1] with level + 1 recorded and the capture stack set aside, restores everything and yields the parent's text minted safe; render_to starts from the chunk of parents[0] and find_parents returns the chain root-first.",
-        "note": "NOT decided: lineage construction in finalize_templates (which definitions end up in a block's lineage, 'child blocks must exist in some ancestor'), single-block capture. The nested interpret call is assumed to leave the block bookkeeping as it found it (inductive hypothesis); the VM invariants about the block stack are arm preconditions.",
+        "technique": "Verus contracts on two loop regions of finalize_templates lifted mechanically into functions (R34 region extraction) against recursive specifications of block lineage, with lemmas; Verus contracts and in-body obligations on the RenderBlock and CallFunction(super) arms of interpret lifted mechanically (arm extraction; the re-entry into interpret is a trusted declaration carrying the inductive hypothesis), on render_to, and on find_parents",
+        "text": "Proof of the DISPATCH half for all VM states: RenderBlock runs lineage[0] (the most-derived definition) with the block pushed at level 0 and recorded as current, is an error when the block has no lineage, restores chunk/current block/block stack and lets a failing body surface; super() looks up the TOPMOST entry of the current block, is an error outside a block or at the last level, runs lineage[level + 1] with level + 1 recorded and the capture stack set aside, restores everything and yields the parent's text minted safe; render_to starts from the chunk of parents[0] and find_parents returns the chain root-first. CONSTRUCTION half, unbounded, for all templates, chains and map iteration orders: (a) the lineage loop gives every block a template defines its own chunk followed, only if that calls super(), by the same block of its ancestors nearest first, skipping ancestors that do not define it and stopping after the first that does not call super(); (b) the inheritance pass leaves in every template exactly the blocks that it or an ancestor defines, each with the template's own lineage if it has one and otherwise that of the NEAREST ancestor that has one (whatever order the unordered maps are visited in).",
+        "note": "NOT decided: the glue between the regions inside finalize_templates (that (a) feeds (b), read), 'child blocks must exist in some ancestor', single-block capture. Region (b) assumes what find_parents' contract provides: every ancestor is a registered template whose own chain is the part of the chain above it. HashMap get/insert/entry/iteration are std contracts over abstract map views; `get_mut(..).unwrap()` + `entry(..).or_insert(..)` are modelled jointly as an insert-if-absent through a handle. The nested interpret call is assumed to leave the block bookkeeping as it found it (inductive hypothesis); the VM invariants about the block stack are arm preconditions.",
         "design_ref": "DESIGN.md section 0 and section 3 (C04)",
     },
     "C05": {
@@ -108,9 +108,9 @@ CLAIMS = {
     },
     "C08": {
         "engine": "V+K",
-        "technique": "Verus contract on the WriteText arm of interpret (arm extraction); Kani bounded harnesses on the lexer's start-marker search",
-        "text": "Proof for all VM states: the WriteText arm appends exactly the bytes of the literal text to the current sink (innermost capture buffer, else the output), unescaped, touches no other sink and surfaces a writer failure as Err (VM half of 'text is written byte-for-byte').",
-        "note": "The tokenizer state machine, the whitespace filter and the parser's handling of empty text are not decided; the lexer helpers are bounded harnesses.",
+        "technique": "Verus contract on the closure of whitespace_filter converted mechanically into a function (R31) plus a stream-level lemma; Verus proof of skip_tag against the documented tag grammar; Verus contract on the WriteText arm of interpret (arm extraction); Kani bounded harnesses on the lexer's start-marker search",
+        "text": "Proof, unbounded: (1) one call of the whitespace filter emits, for a literal text (template text or raw body), the text with its start trimmed iff the token DIRECTLY before ended with a dash and its end trimmed iff the token DIRECTLY after starts with one; a comment becomes empty text; every other token passes unchanged; the carried flag afterwards depends on the token just consumed and on nothing older; lemma: over a whole token stream the output at position i is a function of tokens i-1, i, i+1 only, and text with no dashed neighbour is untouched. (2) skip_tag accepts exactly `-? ws* NAME ws* -? END`, returns the byte length of that prefix and the dash facing what follows the tag. (3) the WriteText arm appends exactly the bytes of the literal text to the current sink, unescaped, touches no other sink and surfaces a writer failure as Err.",
+        "note": "The tokenizer state machine itself (raw/comment scanning offsets, byte slicing) and the parser's dropping of empty text are not decided; str::trim_start/trim_end/strip_prefix are std contracts over the character sequence (byte length additive, assumed); iter::from_fn + Peekable are std contracts (the closure is run once per output token); find_start_marker/memstr are bounded Kani harnesses. One genuine defect found by stating (1) and fixed (10bdcfc).",
         "design_ref": "DESIGN.md section 4 C08",
     },
     "C12": {
